@@ -43,11 +43,19 @@ CountsVerdict(e) ==
      ELSE IF SumTo(e.counts, Len(e.counts)) # e.n THEN "C13.in-gamut"
      ELSE "ok"
 
+(* central symmetry: the gamut of a bounded system is a zonotope, symmetric about the capture of the mid-point   *)
+(* intensities, so a uniform sample puts equally many points beyond  u.(x - c) > t  and beyond  u.(x - c) < -t   *)
+(* for every direction u and offset t (counts recorded by the harness; 6 sigma of a fair split)                   *)
+SymVerdict(e) ==
+  IF \E k \in 1..Len(e.plus) : (e.plus[k] - e.minus[k]) * (e.plus[k] - e.minus[k]) > 36 * (e.plus[k] + e.minus[k]) + 36
+  THEN "C13.uniform" ELSE "ok"
+
 Init == l = 2 /\ memo = [k \in 1..NKeys |-> <<>>] /\ nbad = 0
 Next == /\ l <= Len(Events)
         /\ LET e == Events[l]
                v == IF e.ev = "sample" THEN SampleVerdict(e, memo[e.key])
                     ELSE IF e.ev = "l1" THEN L1Verdict(e, memo[e.key])
+                    ELSE IF e.ev = "sym" THEN SymVerdict(e)
                     ELSE CountsVerdict(e)
            IN /\ (v # "ok" => PrintT(<<"BAD", e.i, v>>))
               /\ TLCSet(1, l)
